@@ -677,9 +677,8 @@ func (opts *rootOpts) processRef(ctx context.Context, s ConfigSync, src, tgt ref
 			return err
 		}
 		src.Digest = platDigest.String()
-		if tgtExists && platDigest.String() == manifest.GetDigest(mTgt).String() {
-			tgtMatches = true
-		}
+		// the target matches when it holds the platform specific manifest, not the source index
+		tgtMatches = tgtExists && platDigest.String() == manifest.GetDigest(mTgt).String()
 		if tgtMatches && (s.ForceRecursive == nil || !*s.ForceRecursive) {
 			opts.log.Debug("Image matches for platform",
 				slog.String("source", src.CommonName()),
